@@ -506,11 +506,10 @@ class SelfTestResult(State):
 
         result2 = rsp.selftest_result_2
 
-        if self.status != self.CORRUPTED_OR_INACCESSIBLE_DATA_OR_DEVICES:
-            self.fail_sel = (result2 & 0x80) >> 7
-            self.fail_sdrr = (result2 & 0x40) >> 6
-            self.fail_bmc_fru = (result2 & 0x20) >> 5
-            self.fail_ipmb = (result2 & 0x10) >> 4
+        self.fail_sel = (result2 & 0x80) >> 7
+        self.fail_sdrr = (result2 & 0x40) >> 6
+        self.fail_bmc_fru = (result2 & 0x20) >> 5
+        self.fail_ipmb = (result2 & 0x10) >> 4
         self.fail_sdrr_empty = (result2 & 0x08) >> 3
         self.fail_bmc_fru_interanl_area = (result2 & 0x04) >> 2
         self.fail_bootblock = (result2 & 0x02) >> 1
